@@ -70,6 +70,22 @@ def build_create(case):
         il.addInput(off, sem, ref_of(tgt))
     mat = None if case.get('material') is None else 'mat%d' % case['material']
     kind = case['kind']
+    main = _maker(case, case, geom, il, mat, numpy)
+    pre = [_maker(case, dict(case, **st), geom, il, mat, numpy) for st in case.get('prelude') or []]
+
+    def go():
+        # earlier constructions on the same geometry / sources / input list; their outcome is irrelevant
+        for mk in pre:
+            try:
+                mk()
+            except Exception:  # noqa
+                pass
+        return main()
+    return go
+
+
+def _maker(case0, case, geom, il, mat, numpy):
+    kind = case0['kind']
     # argument forms: the index dtype (int32 like the loaders, int64 = numpy's default, uint32)
     # and vcounts as an array or a plain list; values go up to 2**31 - 1
     dt = {'int32': numpy.int32, 'int64': numpy.int64, 'uint32': numpy.uint32}[case.get('dtype', 'int32')]
@@ -83,9 +99,10 @@ def build_create(case):
     return lambda: geom.createPolygons([numpy.array(p, dtype=dt) for p in case['polys']], il, mat)
 
 
-def xml_source(i, n, nc, raw=None):
+def xml_source(i, n, nc, raw=None, names=None):
     data = src_data(i, n, nc) if raw is None else raw
-    params = ''.join('<param name="%s" type="float"/>' % c for c in COMPS[nc])
+    names = COMPS[nc] if names is None else names
+    params = ''.join(('<param name="%s" type="float"/>' % c) if c else '<param type="float"/>' for c in names)
     return ('<source id="s%d"><float_array id="s%d-array" count="%d">%s</float_array><technique_common>'
             '<accessor source="#s%d-array" count="%d" stride="%d">%s</accessor></technique_common></source>'
             % (i, i, len(data), ' '.join(str(x) for x in data), i, n, nc, params))
@@ -100,8 +117,9 @@ def xml_doc(case):
         parts.append(xml_source(0, n // max(nc, 1), nc, raw=list(range(1, n + 1))))
         parts.append('<vertices id="verts"><input semantic="POSITION" source="#s0"/></vertices>')
     else:
+        pn = case.get('pnames') or {}
         for i, (n, nc) in enumerate(case['srcs']):
-            parts.append(xml_source(i, n, nc))
+            parts.append(xml_source(i, n, nc, names=pn.get(str(i))))
         verts = None
         for off, sem, tgt in case['inputs']:
             if tgt[0] == 'verts':
